@@ -292,6 +292,23 @@ def stateChecks (h : HCtx) (o : Obs) : CM Unit := do
       count "C01" "escrow-exact"
       for (name, detail) in checkEscrowExact s i v do
         viol "C01" s!"escrow-{name}" s!"auction {i} status {v.a.status.code}: {detail}"
+  -- S5: the module's OWN invariants (keeper/invariants.go), run by the harness on the real keeper:
+  -- none may be broken (Props/C01.C01_module_invariants_hold), and each flag must be what the
+  -- model's function — proved equal to the translated Go function, Proofs/Tie/Invariants — gives
+  -- on the reported state
+  match d.inv with
+  | none => skip
+  | some fl =>
+    count "C01" "module-invariants"
+    let names := ["selling-pool-reserve-amount", "paying-pool-reserve-amount", "vesting-pool-reserve-amount", "all"]
+    let want := [sellingInvBroken s, payingInvBroken s, vestingInvBroken s, allInvariantsBroken s]
+    for (name, got, w) in names.zip (fl.zip want) do
+      match got with
+      | none => viol "C01" s!"module-invariant-panics:{name}" s!"the module's invariant {name} panicked"
+      | some true => viol "C01" s!"module-invariant-broken:{name}" s!"the module's invariant {name} reports broken"
+      | some false =>
+        if w && !d.unknownSeen then
+          viol "C01" s!"module-invariant-silent:{name}" s!"the module's invariant {name} reports ok on a state that breaks it"
 
 /-! ### helpers for the transition monitors -/
 
@@ -1050,7 +1067,7 @@ def opChecks (h : HCtx) (c : Obs) : CM Unit := do
 /-- the (property, monitor) pairs always listed in the COUNT summary -/
 def knownCounts : List (String × String) :=
   [("C00", "parse-skip"),
-   ("C01", "escrow-covered"), ("C01", "escrow-exact"),
+   ("C01", "escrow-covered"), ("C01", "escrow-exact"), ("C01", "module-invariants"),
    ("C02", "supply"), ("C02", "user-debit"), ("C02", "escrows-empty"),
    ("C03", "clearing"),
    ("C04", "price-bounds"), ("C04", "fixed-price-bounds"),
